@@ -73,5 +73,21 @@ def check(ctx):
         ctx.violation("case %d rejected by MergeTrace at line %s: %s" % (k, r[1] if r else "?", r[2] if r else "unfinished"),
                       {"case": k, "trace": cases.get(k), "first_unmatched": r[2] if r else None,
                        "how": "bin/check C09 --replay <this file>"})
+    if not v.violations:
+        def corrupt(evs):
+            for e in evs:
+                if e["ev"] == "emit":
+                    e["index"] += 1
+                    return True
+            return False
+        c.binding_selftest(ctx, "index", "MergeTrace.tla", trace, {}, corrupt)
+
+        def drop(evs):
+            for i, e in enumerate(evs):
+                if e["ev"] == "emit":
+                    del evs[i]
+                    return True
+            return False
+        c.binding_selftest(ctx, "drop-event", "MergeTrace.tla", trace, {}, drop)
     ctx.assumptions = ["TLC 1.8.0 and CommunityModules are correct", "driver projection (payload tags, field equality) is correct",
                        "reception times are mapped 1 tick = 1 ms from a fixed base"]
